@@ -41,12 +41,21 @@ DROP_ATTRS = ("#[cold]", "#[inline]", "#[inline(always)]", "#[repr(C)]", "#[must
 # ------------------------------------------------------------------------------ splice file
 
 def expand_repeats(text):
-    """`#@repeat A=1,B=x ; A=2,B=y` ... `#@end` : the enclosed lines are repeated once per binding
-    set with `${A}` substituted (used for the four CellType impls, which differ only in width)."""
+    """Two forms.  One line:  `#@repeat A=1,B=x ; A=2,B=y` ... `#@end`.
+    Multi-line (values may contain anything):
+        #@repeat
+        #@case
+        #@with NAME := value
+        #@case
+        #@with NAME := other value
+        #@body
+        ...
+        #@end
+    The enclosed lines are repeated once per case with `${NAME}` substituted."""
     out, i = [], 0
     lines = text.split("\n")
     while i < len(lines):
-        m = re.match(r"#@repeat\s+(.*)", lines[i])
+        m = re.match(r"#@repeat\s*(.*)", lines[i])
         if not m:
             out.append(lines[i])
             i += 1
@@ -54,20 +63,83 @@ def expand_repeats(text):
         j = i + 1
         while not lines[j].startswith("#@end"):
             j += 1
-        block = "\n".join(lines[i + 1:j])
-        for binding in m.group(1).split(";"):
+        cases = []
+        if m.group(1).strip():
+            for binding in m.group(1).split(";"):
+                d = {}
+                for kv in binding.split(","):
+                    k, v = kv.strip().split("=", 1)
+                    d[k.strip()] = v.strip()
+                cases.append(d)
+            body_start = i + 1
+        else:
+            k = i + 1
+            while not lines[k].startswith("#@body"):
+                if lines[k].startswith("#@case"):
+                    cases.append({})
+                else:
+                    mm = re.match(r"#@with\s+(\w+)\s*:=\s?(.*)$", lines[k])
+                    if mm:
+                        cases[-1][mm.group(1)] = mm.group(2)
+                k += 1
+            body_start = k + 1
+        block = "\n".join(lines[body_start:j])
+        for d in cases:
             b = block
-            for kv in binding.split(","):
-                k, v = kv.strip().split("=")
-                b = b.replace("${%s}" % k.strip(), v.strip())
+            for k2, v in d.items():
+                b = b.replace("${%s}" % k2, v)
             out.append(b)
         i = j + 1
     return "\n".join(out)
 
 
-def parse_splices(text):
+def expand_includes(text, base_dir, imports):
+    """`#@include <other splices.vs> :: <key> @ <anchor>` copies that block verbatim from another
+    unit, so that a contract ASSUMED here is textually the contract PROVED there.  Each use is
+    recorded in `imports` (reported as a cross-unit assumption)."""
+    out = []
+    for line in text.split("\n"):
+        m = re.match(r"#@include\s+(\S+)\s*::\s*(.*?)\s+@\s+(.*?)\s*$", line)
+        if not m:
+            out.append(line)
+            continue
+        path = os.path.normpath(os.path.join(base_dir, m.group(1)))
+        other = parse_splices(open(path).read(), os.path.dirname(path), None)
+        key, anchor = nows(m.group(2)), m.group(3).strip()
+        blocks = [t for a, t, n in other.get(key, []) if a == anchor]
+        if len(blocks) != 1:
+            raise ValueError("include %s :: %s @ %s: %d blocks" % (path, m.group(2), anchor, len(blocks)))
+        out.append("@@ %s @ %s" % (m.group(2), anchor))
+        out.append(blocks[0])
+        if imports is not None:
+            imports.append("%s @ %s  <-  %s" % (m.group(2), anchor, os.path.relpath(path, os.path.dirname(base_dir))))
+    return "\n".join(out)
+
+
+CANARY_MODE = [False]
+
+
+def expand_canary(text):
+    """A line `   #@canary <clause>` is dropped in a normal run and replaced by `<clause>` in the
+    canary run -- a deliberately FALSE contract clause on a real function, which must make the
+    verifier fail (vacuity guard: contradictory preconditions or an `assume(false)` would let it pass)."""
+    out = []
+    for line in text.split("\n"):
+        m = re.match(r"(\s*)#@canary\s+(.*)$", line)
+        if m:
+            if CANARY_MODE[0]:
+                out.append(m.group(1) + m.group(2))
+        else:
+            out.append(line)
+    return "\n".join(out)
+
+
+def parse_splices(text, base_dir=None, imports=None):
     """-> dict key -> list of (anchor, text, lineno)"""
     text = expand_repeats(text)
+    text = expand_canary(text)
+    if base_dir is not None:
+        text = expand_includes(text, base_dir, imports)
     out = {}
     cur = None
     for n, line in enumerate(text.split("\n"), 1):
@@ -91,10 +163,12 @@ def parse_splices(text):
 # ------------------------------------------------------------------------------ extraction
 
 class Extractor:
-    def __init__(self, unit_dir, repo=REPO):
+    def __init__(self, unit_dir, repo=REPO, canary=False):
+        CANARY_MODE[0] = canary
         self.unit_dir = unit_dir
         self.repo = repo
-        self.splices = parse_splices(open(os.path.join(unit_dir, "splices.vs")).read())
+        self.imports = []      # contract blocks copied verbatim from other units (cross-unit assumptions)
+        self.splices = parse_splices(open(os.path.join(unit_dir, "splices.vs")).read(), unit_dir, self.imports)
         self.used_splices = set()
         self.files = {}
         self.log = []          # what was extracted / dropped / rewritten
@@ -123,7 +197,7 @@ class Extractor:
         return src.count("\n", 0, pos) + 1
 
     # -- edits for one fn-like item -------------------------------------------------------
-    def _fn_edits(self, rel, src, toks, it, key, boundary):
+    def _fn_edits(self, rel, src, toks, it, key, boundary, in_trait=False):
         edits = []   # (pos_start, pos_end, replacement, order)
         shape = rustlex.FnShape(toks, it)
         sp = self.splices.get(nows(key), [])
@@ -189,13 +263,17 @@ class Extractor:
             elif a0 == "d3":
                 edits += self._d3(toks, it, anchor.split()[1], key)
             elif a0 == "d5":
-                edits += self._d5(toks, it, anchor.split()[1], key)
+                edits += self._d5(toks, it, anchor.split(None, 1)[1], key)
             elif a0 == "pub":
                 pass
             else:
                 p = pos_of(anchor)
                 edits.append((p, p, "\n" + text + "\n", order))
-        if boundary:
+        if boundary and in_trait:
+            # default method of a trait taken as a declaration only: `{ body }` -> `;`
+            if it.body_open is not None:
+                edits.append((toks[it.body_open].start, toks[it.body_close].end, ";", 0))
+        elif boundary:
             if it.body_open is not None:
                 edits.append((toks[it.body_open].start, toks[it.body_close].end, "{ unimplemented!() }", 0))
             edits.append((decl_start, decl_start, "#[verifier::external_body]\n", -1))
@@ -349,50 +427,82 @@ class Extractor:
         return [(toks[s].start, toks[s].start, "(%s: " % name, 0), (toks[e].end, toks[e].end, ")", 0)]
 
     def _d5(self, toks, it, arg, key):
-        """const-generic parameter specialised to a literal (monomorphisation)."""
-        cname, lit = arg.split("=")
+        """const-generic parameter specialised to a literal -- what the compiler's
+        monomorphisation does; optionally renames the copy: `d5 LIMITED=true name=execute_in_limited`."""
+        parts = arg.split()
+        cname, lit = parts[0].split("=")
+        newname = None
+        for p in parts[1:]:
+            if p.startswith("name="):
+                newname = p[5:]
         edits = []
-        # remove `const NAME: T` from the generics of the fn
-        k = it.kw_idx
-        while toks[k].text != "<":
-            k += 1
-        j = k + 1
-        found = False
-        while toks[j].text != "(":
-            if toks[j].kind == "ident" and toks[j].text == "const":
-                n = rustlex._next_sig_idx(toks, j)
-                if toks[n].text == cname:
-                    # up to `,` or `>`
-                    m = n
-                    while toks[m].text not in (",", ">"):
-                        m += 1
-                    endpos = toks[m].end if toks[m].text == "," else toks[m].start
-                    edits.append((toks[j].start, endpos, "", 0))
-                    found = True
-                    # if the generics become empty `<>` remove them
-                    rest = "".join(t.text for t in toks[k + 1:j] if t.kind != "ws") + \
-                           "".join(t.text for t in toks[m + (1 if toks[m].text == "," else 0):] [:1] if t.text != ">")
-                    if toks[m].text == ">" and not "".join(t.text for t in toks[k + 1:j]).strip():
-                        edits.append((toks[k].start, toks[k].end, "", 0))
-                        edits.append((toks[m].start, toks[m].end, "", 0))
+        name_idx = rustlex._next_sig_idx(toks, it.kw_idx)
+        if newname:
+            edits.append((toks[name_idx].start, toks[name_idx].end, newname, 0))
+        lt = rustlex._next_sig_idx(toks, name_idx)
+        if toks[lt].text != "<":
+            raise LostAnchor("%s: D5 function has no generics" % key)
+        # matching `>`
+        d, gt = 0, lt
+        while True:
+            tx = toks[gt].text
+            if toks[gt].kind == "punct":
+                if tx == "<":
+                    d += 1
+                elif tx == ">":
+                    d -= 1
+                elif tx == ">>":
+                    d -= 2
+                if d <= 0:
                     break
-            j += 1
+            gt += 1
+        # split params at depth-1 commas
+        params, cur, d = [], [], 0
+        for j in range(lt + 1, gt):
+            tx = toks[j].text
+            if toks[j].kind == "punct" and tx in ("<", "(", "["):
+                d += 1
+            elif toks[j].kind == "punct" and tx in (">", ")", "]"):
+                d -= 1
+            if toks[j].kind == "punct" and tx == "," and d == 0:
+                params.append(cur)
+                cur = []
+            else:
+                cur.append(j)
+        if any(toks[j].kind not in ("ws", "comment") for j in cur):
+            params.append(cur)
+        keep, found = [], False
+        for prm in params:
+            sigs = [toks[j].text for j in prm if toks[j].kind not in ("ws", "comment")]
+            if len(sigs) >= 2 and sigs[0] == "const" and sigs[1] == cname:
+                found = True
+            else:
+                keep.append("".join(toks[j].text for j in prm).strip())
         if not found:
             raise LostAnchor("%s: D5 const generic `%s` not found" % (key, cname))
+        rep = "<" + ", ".join(keep) + ">" if keep else ""
+        edits.append((toks[lt].start, toks[gt].end, rep, 0))
+        n = 0
         for j in range(it.body_open + 1, it.body_close):
             if toks[j].kind == "ident" and toks[j].text == cname:
                 edits.append((toks[j].start, toks[j].end, lit, 0))
-        self.log.append("D5 %s: const generic %s := %s" % (key, cname, lit))
+                n += 1
+        self.log.append("D5 %s: const generic %s := %s (%d uses)%s" % (
+            key, cname, lit, n, (", copy named `%s`" % newname) if newname else ""))
         return edits
 
     # -- one //@extract directive ----------------------------------------------------------
-    def extract(self, rel, selector, children_spec, rename=None):
+    def extract(self, rel, selector, children_spec, variant=None):
         src, toks, items = self._file(rel)
         hits = self._find(items, selector)
         if len(hits) != 1:
             raise LostAnchor("%s :: `%s` matches %d items" % (rel, selector, len(hits)))
         it = hits[0]
         edits = []
+        # a variant (`#name` at the end of the directive) selects its own set of splices, so that
+        # the same item can be extracted twice (e.g. the two monomorphisations of a const generic)
+        if variant:
+            selector = "%s#%s" % (selector, variant)
         key = nows(selector)
         fnlist = []
         if it.kind == "fn":
@@ -441,9 +551,14 @@ class Extractor:
                         seen.add(ck)
                         if ch.kind == "fn":
                             ckey = "%s > fn %s" % (selector, ch.name)
-                            e, shape = self._fn_edits(rel, src, toks, ch, ckey, want[ck])
+                            e, shape = self._fn_edits(rel, src, toks, ch, ckey, want[ck], in_trait=(it.kind == "trait"))
                             edits += e
-                            fnlist.append((ckey, ch, "assumed (external_body)" if want[ck] else "verified"))
+                            mode = "verified"
+                            if want[ck]:
+                                mode = "assumed (contract only; body not in this unit)"
+                            elif ch.body_open is None:
+                                mode = "declaration (contract only)"
+                            fnlist.append((ckey, ch, mode))
                     else:
                         edits.append((ch.start, ch.end, "", 0))
                 missing = set(want) - seen
@@ -522,7 +637,8 @@ class Extractor:
     @staticmethod
     def _apply(src, lo, hi, edits):
         # sort by position; for equal position: by order (stable)
-        edits = sorted(edits, key=lambda e: (e[0], e[3]))
+        # insertions (s == e) at a position come before a replacement starting there
+        edits = sorted(edits, key=lambda e: (e[0], 1 if e[1] > e[0] else 0, e[3]))
         out = []
         pos = lo
         for s, e, rep, _ in edits:
@@ -543,13 +659,13 @@ class Extractor:
         tmpl = open(os.path.join(self.unit_dir, "unit.rs")).read()
         out_lines = []
         for line in tmpl.split("\n"):
-            m = re.match(r"\s*//@extract\s+(\S+)\s*::\s*(.*?)\s*(\{(.*)\})?\s*$", line)
+            m = re.match(r"\s*//@extract\s+(\S+)\s*::\s*(.*?)\s*(\{(.*?)\})?\s*(?:#(\w+))?\s*$", line)
             if not m:
                 out_lines.append(line)
                 continue
-            rel, selector, _, children = m.group(1), m.group(2), m.group(3), m.group(4)
+            rel, selector, _, children, variant = m.group(1), m.group(2), m.group(3), m.group(4), m.group(5)
             spec = children.split(",") if children is not None else None
-            text, info = self.extract(rel, selector, spec)
+            text, info = self.extract(rel, selector, spec, variant=variant)
             lo = len(out_lines) + 1
             out_lines.append("// ---- extracted from %s:%s (%s)" % (rel, info["lines"], selector))
             out_lines += text.split("\n")
